@@ -11,7 +11,7 @@ RULE = ("validated models from the structured generator (depth 0-3, all connecti
 
 def total_interp(m, rng, p_over=0.25):
     env = random_env(leaves_of(m), rng)
-    if rng.random() < 0.25:
+    if leaves_of(m) and rng.random() < 0.25:
         # a value outside the declared bounds of a leaf (the API takes it as given, in every value form): it counts as it is
         l = rng.choice(leaves_of(m))
         lo, hi = int(l.bounds.lower), int(l.bounds.upper)
@@ -106,10 +106,12 @@ def run(res, tier, seed):
     res.rule = RULE
     n_models = 350 if tier == "quick" else 4000
     per = 2 if tier == "quick" else 3
-    models = gen_valid(rng, n_models, res, constvar=0.15)
+    models = gen_valid(rng, n_models, res, constvar=0.15, empty=0.06, wide=0.03)
     cases = []
     for ast, m in models:
         res.count("depth_%d" % depth_of(m))
+        if any((not is_var(x)) and len(x.propositions) == 0 for x in all_nodes(m)):
+            res.count("has_childless_compound")     # documented as not allowed, accepted by constructors and errors(): sum 0
         for _ in range(per):
             env, d = total_interp(m, rng)
             if any(k in compound_ids(m) for k in d):
